@@ -216,8 +216,35 @@ PROPS['C14'] = dict(
     level_note='Trusted: the interpreter\'s declaration of each opcode\'s target objects (hist.h) and the snapshot function (public accessors only).',
     assumptions=[EXACT, SAN],
 )
+def valgrind_unit():
+    """thorough only: memcheck pass (uninitialised reads are invisible to ASan/UBSan) over generated histories and the regression replays."""
+    VT = T('h_hist_plain', kind='valgrind', src=['harness/h_hist.cpp'], parts=4)
+    def run(u, tier, res, env):
+        if tier != 'thorough':
+            return
+        exe, bl = env['build'](VT)
+        if exe is None:
+            res.notes.append('BUILD-FAILED h_hist_plain log=%s' % bl); return
+        outs = []
+        from concurrent.futures import ThreadPoolExecutor
+        def go(k):
+            out = _os.path.join(env['BUILD'], 'vg-%d-%d.json' % (_os.getpid(), k))
+            cmd = ['valgrind', '--error-exitcode=99', '-q', '--track-origins=yes', exe, '--focus', 'C09', '--seed', str(env['SEED'] * 31 + k), '--scale', '0.03', '--out', out, '--replay-dir', env['REPLAYS']]
+            return k, out, cmd, env['run_proc'](cmd, timeout=3 * 3600)
+        tot = 0
+        with ThreadPoolExecutor(max_workers=8) as ex:
+            for k, out, cmd, (rc, so, se, w) in ex.map(go, range(8)):
+                if _os.path.exists(out):
+                    j = _json.load(open(out)); tot += sum(s['evaluations'] for s in j['subs'].values()); _os.unlink(out)
+                if rc == 99 or 'Conditional jump' in se or 'uninitialised' in se:
+                    p = _os.path.join(env['REPLAYS'], 'valgrind-C09-%d.txt' % k)
+                    open(p, 'w').write('command: %s\n%s' % (' '.join(cmd), se[-8000:]))
+                    res.candidates.append((['/bin/sh', '-c', ' '.join(cmd) + ' >/dev/null 2>&1; test $? -eq 99 && exit 1; exit 0', 'sh'], p, 'valgrind memcheck error: ' + se[:300], None))
+        res.extra['valgrind_memcheck'] = dict(histories=tot, processes=8, note='plain g++ -O1 build of the rapidcheck history harness under valgrind --track-origins (uninitialised-value use)')
+    return dict(custom=run, prebuild_thorough=[VT], prebuild_quick=[])
+
 PROPS['C09'] = dict(
-    units=[dict(target=HIST_T, quick=dict(args=['--focus', 'C09'], scale=4.0), thorough=dict(args=['--focus', 'C09', '--max-size', '200'], scale=12.0, shards=8)),
+    units=[valgrind_unit(), dict(target=HIST_T, quick=dict(args=['--focus', 'C09'], scale=4.0), thorough=dict(args=['--focus', 'C09', '--max-size', '200'], scale=12.0, shards=8)),
            fuzz_unit(1, 250000, 3000000)],
     rule=HIST_RULE + 'Oracle (C09): no ASan / UBSan / _GLIBCXX_ASSERTIONS (rapidcheck build) or _GLIBCXX_DEBUG (libFuzzer build) report, no foreign exception (std::out_of_range, bad_optional_access, ...) and no BSplineException from a call whose preconditions hold; '
          'checked accessors (Grid::at, Support::at, absoluteFromRelative, front/back) throw exactly for indices outside the view and otherwise return the element grid[start+index]. '
